@@ -174,6 +174,7 @@ func C09(p *load.Prog, r *report.Report) {
 		r.Undecided("C09.anchor", "HashToScalar", "", "function not found")
 		return
 	}
+	hashFrame(p, r, "C09", "HashToScalar")
 	pos := p.Pos(fn.Pos())
 	hashEntry(p, r, "C09", fn, absint.Config{}, nil, nil, func(res *absint.PathResult, class string, oversize bool) {
 		construct := "HashToScalar (" + class + ")"
@@ -206,20 +207,8 @@ func C08(p *load.Prog, r *report.Report) {
 		r.Undecided("C08.model", "layout", "", err.Error())
 		return
 	}
-	// inherited: the maps themselves
-	sub := report.New("C11", r.Tier, "proof", r.VerifDir)
-	sub.Quiet = true
-	C11(p, sub)
-	nbad := 0
-	for _, o := range sub.Obls {
-		if o.Status != report.Discharged {
-			nbad++
-			r.Fail("C08.maps", "inherited "+o.Rule+" "+o.Construct, o.Pos, "map-to-curve obligation of C11 fails: "+o.Detail)
-		}
-	}
-	if nbad == 0 {
-		r.OK("C08.maps", "SSWU, sqrt_ratio, 3-isogeny (inherited from C11)", fmt.Sprintf("%d obligations re-run and discharged", len(sub.Obls)))
-	}
+	inherit(p, r, "C08", "C11", C11)
+	hashFrame(p, r, "C08", "HashToGroup", "EncodeToGroup")
 	sswu := p.Root.Func("SSWU")
 	iso := p.Root.Func("IsogenySecp256k13iso")
 	if sswu == nil || iso == nil {
